@@ -62,7 +62,7 @@ func (s *zzRecorder) do(c *reghttp.Client, ctx context.Context, req *reghttp.Req
 	h.Set("Docker-Content-Digest", "sha256:0123456789abcdef0123456789abcdef0123456789abcdef0123456789abcdef")
 	h.Set("Content-Type", mediatype.OCI1Manifest)
 	resp := reghttp.ZZNewResp(s.client, ctx, req, u, status, h, nil, 0)
-	if status >= 400 && !req.IgnoreErr {
+	if status < 200 || status >= 300 { // as the real Do: any non-2xx reply is an error, IgnoreErr only suppresses the back-off
 		return resp, fmt.Errorf("request failed: %w", reghttp.HTTPError(status))
 	}
 	return resp, nil
